@@ -35,6 +35,8 @@ def _tier_descs(uid, k, tier):
     U = corpus.enumerate_universe(uid)
     if tier == "thorough":
         return U, len(U)
+    if tier == "quick4":          # a larger sample for universes too big to visit whole every time
+        k = 4 * k
     return corpus.subsample(U, k, seed()), len(U)
 
 
@@ -106,6 +108,14 @@ def check_life(pid, tier):
 
 
 REGISTRY = {p: check_life for p in LIFE}
+
+
+def _c03(pid, tier):
+    from . import c03
+    return c03.check(pid, tier)
+
+
+REGISTRY["C03"] = _c03
 
 
 def main(argv=None):
